@@ -15,7 +15,8 @@
   `sync_allocations`, `sync_servers`, `sync_traits`; `zkutils.put` (create, else compare, else set),
   `zkutils.ensure_deleted`, `zkutils.ensure_exists`, `zkutils._payload`;
   `masterapi.update_allocations` / `create_event`; `utils.reboot_schedule` (with the exact `int()` of
-  `TmVerif.Units`).  `sync_appgroups`' lookup databases and `sync_server_topology` are not modelled.
+  `TmVerif.Units`).  `sync_server_topology` is in CellSyncTopo.lean; `sync_appgroups`' lookup databases
+  are not modelled.
 -/
 import TmVerif.Units.Model
 import TmVerif.Gen.ExtCellsync
